@@ -273,6 +273,13 @@ func cmdCheck(args []string) int {
 	for _, l := range lines {
 		fmt.Println(l)
 	}
+	for _, r := range results {
+		for _, o := range r.Obls {
+			if o.Secs > 2 || o.Backend != "z3-new" {
+				fmt.Printf("slow: %.1fs %s %s %s\n", o.Secs, o.Backend, o.Result, o.Name)
+			}
+		}
+	}
 	fmt.Printf("property=%s tier=%s functions=%d obligations=%d discharged=%d wall=%.1fs\n", id, *tier, len(results), total, discharged, wall)
 	if len(undecided) > 0 {
 		for _, u := range undecided {
